@@ -53,6 +53,14 @@ Fixpoint exec (s : stmt) (e : ienv) : ienv :=
       if cmpeval op (aeval e1 a) (aeval e1 b) then exec thn e1 else exec els e1
   end.
 
+(* ---- the header scan loop of BuildIndex, statement by statement (goextract) ---- *)
+Inductive scan_op :=
+| OpNext                 (* hdr, err := tr.Next() *)
+| OpBreakEOF             (* if errors.Is(err, io.EOF) { break } *)
+| OpReturnErr            (* if err != nil { return … } *)
+| OpPos (v : string)     (* v, err = f.Seek(0, io.SeekCurrent) *)
+| OpSize (v : string).   (* v = hdr.Size *)
+
 (* ---- Go's string order --------------------------------------------------- *)
 Definition sle (a b : string) : Prop := String.leb a b = true.
 
